@@ -339,11 +339,19 @@ func wantsToBeReceived(r *pool.Message) bool {
 }
 
 func (b *BlockWise[C]) getSendingMessageCode(token uint64) (codes.Code, bool) {
-	v := b.sendingMessagesCache.Load(token)
-	if v == nil {
-		return codes.Empty, false
-	}
-	return v.Data().Code(), true
+	code := codes.Empty
+	found := false
+	now := time.Now()
+	// The message belongs to the caller of Do, who releases it right after removing it from the
+	// cache: read it only while the cache's lock keeps the entry in place.
+	b.sendingMessagesCache.LoadWithFunc(token, func(v *cache.Element[*pool.Message]) *cache.Element[*pool.Message] {
+		if !v.IsExpired(now) {
+			code = v.Data().Code()
+			found = true
+		}
+		return v
+	})
+	return code, found
 }
 
 // Handle middleware which constructs COAP request from blockwise transfer and send COAP response via blockwise.
